@@ -38,6 +38,20 @@ def project(sc, r):
     tpid = {tp: i for i, tp in enumerate(tps)}
     mc = member_clients(r["trace"])
     hist = {h["generation"]: h for h in r["groups"].get("g", {}).get("history", [])}
+    # A lost JoinGroup reply on brokers without MEMBER_ID_REQUIRED leaves a ghost member id of the
+    # same client in the group until its session expires.  The model is per client: of several
+    # member ids of one client in a generation, the one the client actually holds is used.
+    held = {(e["gen"], e["c"]): e["member"] for e in r["trace"] if e["ev"] == "cb_assigned_begin"}
+
+    def pick(gen, members):
+        byc = {}
+        for m in members:
+            c = mc.get(m)
+            if c not in cidx:
+                continue
+            if c not in byc or held.get((gen, c)) == m:
+                byc[c] = m
+        return byc
     out = []
     for e in r["trace"]:
         k = e["ev"]
@@ -49,15 +63,16 @@ def project(sc, r):
             if e.get("client") in cidx:
                 out.append(f"JoinSent {cidx[e['client']]}")
         elif k == "join_complete":
-            ms = [cidx[mc[m]] for m in e["members"] if mc.get(m) in cidx]
+            ms = [cidx[c] for c in pick(e["generation"], e["members"])]
             out.append(f"JoinComplete {e['generation']} [{'; '.join(map(str, ms))}]")
         elif k == "sync_complete":
             h = hist.get(e["generation"])
             if h and h["assignments"] is not None:
                 d = []
-                for m, a in sorted(h["assignments"].items()):
-                    if mc.get(m) in cidx:
-                        d.append(f"({cidx[mc[m]]}, [{'; '.join(str(tpid[(t, p)]) for t, p in sorted(map(tuple, a)))}])")
+                chosen = pick(e["generation"], sorted(h["assignments"]))
+                for c, m in sorted(chosen.items()):
+                    a = h["assignments"][m]
+                    d.append(f"({cidx[c]}, [{'; '.join(str(tpid[(t, p)]) for t, p in sorted(map(tuple, a)))}])")
                 out.append(f"SyncComplete {e['generation']} [{'; '.join(d)}]")
         elif k == "cb_assigned_begin":
             a = "; ".join(str(tpid[(t, p)]) for t, p in sorted(map(tuple, e["tps"])))
